@@ -47,9 +47,9 @@ def check(ctx):
     # mechanisms this property rests on (see shared.py): a change there is reported here as well
     from . import shared as _sh
 
-    ctx.run(_sh.path_tokenisers)
-    ctx.run(_sh.graph_loader)
-    ctx.run(_sh.cli_layer, "gaftools.cli.find_path")
+    ctx.run(_sh.path_tokenisers)  # C14 owns the tokeniser rule
+    ctx.run_shared(_sh.graph_loader)
+    ctx.run_shared(_sh.cli_layer, "gaftools.cli.find_path")
 
 
 def r14_1(ctx, g):
